@@ -30,7 +30,32 @@ ASSUME = [
 ]
 
 
+def gen_twin_case(rng):
+    """e^{2a x} - k e^{a x} - k e^{(a + d) x} + 1 with d = 1e-5 or 2e-5: two NEGATIVE terms whose exponents differ in the 5th decimal
+    (distinct on the 7-decimal grid); the relaxation is exact on it in both forms (value -k^2 to five digits) and well conditioned,
+    and the minimiser lies among the sampled points' neighbours: a dual that mixes the two coefficients up is above f there"""
+    a = F(rng.choice([1, 2, 3]))
+    d = F(rng.choice([1, 2]), 10 ** 5)
+    k = F(rng.choice([1, 2]))
+    f = rm.sig_leaf([[2 * a], [a], [a + d], [F(0)]], [F(1), -k, -k, F(1)])
+    return {'f': f, 'box': None, 'ell': rng.choice([0, 0, 1]), 'mod_supp': None, 'twin': True}
+
+
+def gen_loose_case(rng):
+    """e^{3x} - a e^{2x} + b e^{x} + e^{-x}: the level-0 relaxation is NOT tight on these, so what the modulator is (a user support
+    without the constant row, at level 1 or 2) shows in the value, the same in both forms"""
+    a, b = rng.choice([(4, 7), (4, 6), (5, 9), (3, 4)])
+    f = rm.sig_leaf([[F(3)], [F(2)], [F(1)], [F(-1)]], [F(1), F(-a), F(b), F(1)])
+    rows = rng.choice([[[F(1)], [F(-1)]], [[F(1)]], [[F(2)], [F(1)]]])
+    return {'f': f, 'box': None, 'ell': rng.choice([1, 1, 2]), 'mod_supp': [[common.frac_str(x) for x in r] for r in rows], 'twin': True}
+
+
 def gen_case(rng):
+    r0 = rng.random()
+    if r0 < 0.06:
+        return gen_loose_case(rng)
+    if r0 < 0.16:
+        return gen_twin_case(rng)
     f = rm.gen_sig(rng, near=True)
     n = f['n']
     box = rm.gen_box(rng, n, eq=True) if rng.random() < 0.45 else None
@@ -41,6 +66,9 @@ def gen_case(rng):
                            [[F(1)] + [F(0)] * (n - 1), [F(-1)] + [F(0)] * (n - 1)],       # no constant row
                            [[F(1)] + [F(0)] * (n - 1)]])
         mod = [[common.frac_str(x) for x in r] for r in rows]
+        if rng.random() < 0.6:
+            # (a well-conditioned objective under the custom support: primal against dual is then a meaningful comparison)
+            f = rm.gen_sig(rng, n=n, near=False)
     return {'f': f, 'box': box, 'ell': ell, 'mod_supp': mod}
 
 
@@ -66,6 +94,8 @@ def audit_case(ctx, rng, c, pinned=None):
     ctx.case({'stream': 'audit', 'case': c})
     ctx.count('stream:audit')
     pts = rm.box_points(rng, n, c['box'], 30) + ([list(pinned)] if pinned else [])
+    if c.get('twin') and n == 1:
+        pts += [[t / 16.0] for t in range(-16, 17)]
     fmin = min(rm.sig_eval_leaf(c['f'], x) for x in pts)
     for form, (s, v) in vals.items():
         if s != 'solved':
@@ -83,7 +113,15 @@ def audit_case(ctx, rng, c, pinned=None):
                           {'stream': 'audit', 'form': form, 'case': c})
     if all(k in vals and vals[k][0] == 'solved' for k in ('primal', 'dual')):
         vp, vd = vals['primal'][1], vals['dual'][1]
-        if vp > vd + 1e-5 * max(1.0, abs(vd)) and not (math.isinf(vp) and math.isinf(vd)):
+        rows_ = [[F(x) for x in r] for r in c['f']['alpha']]
+        near = any(max(abs(a - b) for a, b in zip(r1, r2)) < F(1, 1000) for i, r1 in enumerate(rows_) for r2 in rows_[i + 1:])
+        if vp > vd + 1e-5 * max(1.0, abs(vd)) and not (math.isinf(vp) and math.isinf(vd)) and near:
+            # two exponents of f closer than 1e-3 (the family planted against tolerance-based matching): the dual is then so badly
+            # conditioned that a "solved" point with constraint violations of 1e-7 can sit far below the optimum (observed: 2.0096 for a
+            # problem whose primal AND merged-exponent dual give 2.8311); weak duality is a theorem about the model, which the data of
+            # both forms are compared with exactly; the VALUES are only judged against f (above), which is robust
+            ctx.incon('audit: primal above dual on an instance with near-duplicate exponents (left to the conditioning of the dual)')
+        elif vp > vd + 1e-5 * max(1.0, abs(vd)) and not (math.isinf(vp) and math.isinf(vd)):
             ctx.violation('weak duality: primal value %.8g exceeds dual value %.8g' % (vp, vd), {'stream': 'audit', 'case': c})
         elif math.isfinite(vp) and math.isfinite(vd):
             if abs(vp - vd) > 1e-4 * max(1.0, abs(vd)):
@@ -133,7 +171,7 @@ def run(ctx):
             ctx.traces_validated += 1
     # ---- audit
     naud = 40 if quick else 300
-    for c in cases[:naud]:
+    for c in cases[:naud] + [c for c in cases[naud:] if c.get('twin')][:(5 if quick else 30)]:
         audit_case(ctx, rng, c)
     if (not ctx.lean.ok or ctx.disagreements) and not ctx.violations:
         common.broken_report(ctx, 'bound audit (sampled points of X, primal vs dual) found no failing input among %d audited instances' % naud)
